@@ -288,6 +288,7 @@ func (t *Transport) HandleSession(ctx context.Context, sess *quic.Conn) (*Link, 
 		rs := raddr.String()
 		delete(t.dialers, rs)
 	}
+	verifGate("quic.session", t, as, lnk, false)
 	if elnk, elnkOk := t.links[as]; elnkOk {
 		rpeer := elnk.GetRemotePeer()
 		t.le.
@@ -330,12 +331,14 @@ func (t *Transport) Close() error {
 
 // handleLinkLost is called when a link is lost.
 func (t *Transport) handleLinkLost(addrStr string, lnk *Link) {
+	verifGate("quic.lost.enter", t, addrStr, lnk, false)
 	t.mtx.Lock()
 	existing := t.links[addrStr]
 	rel := existing == lnk
 	if rel {
 		delete(t.links, addrStr)
 	}
+	verifGate("quic.lost", t, addrStr, lnk, rel)
 	t.mtx.Unlock()
 
 	if t.handler != nil && rel {
